@@ -301,7 +301,6 @@ type Unit struct {
 	heapSorts     map[string]Sort
 	epochs        int
 	ghosts        map[*ghostCell]bool
-	freshRefs     []*Term
 	loopCtxs      map[*loopInfo]*loopCtx
 	havocs        map[string]int
 	calleesUsed   map[string]string
@@ -316,6 +315,9 @@ type Unit struct {
 	entry         *State
 	typedArrs     map[int]bool
 	assumed       map[int]bool
+	assumeTags    []string
+	curTag        string   // tag given to assumptions being added (loop invariant labels)
+	curWithout    []string // exclusions for obligations being generated
 	paramVals     map[string]Val
 	err           error
 }
@@ -357,15 +359,8 @@ func (u *Unit) run() (err error) {
 	// parameters
 	for _, p := range u.fn.Params {
 		v := u.freshVal(st, p.Type(), "p_"+p.Name())
-		if t, ok := v.(*Term); ok && t.sort == SInt {
-			if _, isPtr := p.Type().Underlying().(*types.Pointer); isPtr {
-				m.UF("Alloc0", SBool, SInt)
-				u.assume(tb.True(), tb.Or(tb.Eq(t, tb.Int(0)), tb.App("Alloc0", SBool, t)))
-			}
-		}
-		if t, ok := v.(*Term); ok && t.sort == SSlice {
-			m.UF("Alloc0", SBool, SInt)
-			u.assume(tb.True(), tb.Or(tb.Eq(m.SliceRef(t), tb.Int(0)), tb.App("Alloc0", SBool, m.SliceRef(t))))
+		if t, ok := v.(*Term); ok {
+			u.assumeTyping(tb.True(), t, p.Type(), st) // references held by parameters exist at entry
 		}
 		fr.vals[p] = v
 		u.paramVals[p.Name()] = v
@@ -403,7 +398,9 @@ func (u *Unit) run() (err error) {
 		}
 		for _, cl := range ens {
 			g := u.evalIn(env, cl)
+			u.curWithout = cl.without
 			u.oblige("post", labelOr(cl, ens)+suffix, rst, g, token.NoPos, cl.text)
+			u.curWithout = nil
 		}
 	}
 	if u.con.split && len(rets) > 1 {
@@ -527,9 +524,11 @@ func (u *Unit) frameObligations(st *State) {
 				exp = tb.Store(exp, ref, tb.Select(final, ref))
 			}
 		}
+		if k == allocHeapKey {
+			continue
+		}
 		r := tb.BoundVar("r", SInt)
-		u.m.UF("Alloc0", SBool, SInt)
-		main := tb.Forall([]*Term{r}, tb.Implies(tb.App("Alloc0", SBool, r), tb.Eq(tb.Select(final, r), tb.Select(exp, r))))
+		main := tb.Forall([]*Term{r}, tb.Implies(u.isAlloc0(r), tb.Eq(tb.Select(final, r), tb.Select(exp, r))))
 		goal := tb.And(append([]*Term{main}, extra...)...)
 		u.oblige("frame", k, st, goal, token.NoPos, "locations outside `modifies` are unchanged ("+k+")")
 	}
